@@ -21,11 +21,10 @@ H['engine'] = dict(
             dict(name='ov_t2r2', defs={'H_T': 2, 'H_MAXR': 2, 'H_MAXG': 1, 'H_MAXD': 1, 'H_MAXA': 1, 'FEAT_OVERRIDE': 1}, props=['C05']),
         ],
         'thorough': [
-            dict(name='t3r1', defs={'H_T': 3, 'H_MAXR': 1, 'H_MAXG': 2, 'H_MAXD': 2, 'H_MAXA': 3}, timeout=3000, props=['C02', 'C06']),
-            dict(name='t2r2', defs={'H_T': 2, 'H_MAXR': 2, 'H_MAXG': 2, 'H_MAXD': 2, 'H_MAXA': 2}, timeout=3000, props=['C02', 'C06']),
-            dict(name='t4r1s', defs={'H_T': 4, 'H_MAXR': 1, 'H_MAXG': 1, 'H_MAXD': 1, 'H_MAXA': 2}, timeout=3000, props=['C06', 'C05']),
-            dict(name='ov_t4r1', defs={'H_T': 4, 'H_MAXR': 1, 'H_MAXG': 1, 'H_MAXD': 1, 'H_MAXA': 2, 'FEAT_OVERRIDE': 1}, timeout=3000, props=['C05']),
-            dict(name='ov_t3r2', defs={'H_T': 3, 'H_MAXR': 2, 'H_MAXG': 1, 'H_MAXD': 1, 'H_MAXA': 2, 'FEAT_OVERRIDE': 1}, timeout=3000, props=['C05']),
+            dict(name='t3r1', defs={'H_T': 3, 'H_MAXR': 1, 'H_MAXG': 2, 'H_MAXD': 2, 'H_MAXA': 3}, timeout=6000, props=['C02', 'C06']),
+            dict(name='t2r2', defs={'H_T': 2, 'H_MAXR': 2, 'H_MAXG': 2, 'H_MAXD': 2, 'H_MAXA': 2}, timeout=6000, props=['C02', 'C06']),
+            dict(name='t4r1s', defs={'H_T': 4, 'H_MAXR': 1, 'H_MAXG': 1, 'H_MAXD': 1, 'H_MAXA': 2}, timeout=6000, props=['C06', 'C05']),
+            dict(name='ov_t4r1', defs={'H_T': 4, 'H_MAXR': 1, 'H_MAXG': 1, 'H_MAXD': 1, 'H_MAXA': 2, 'FEAT_OVERRIDE': 1}, timeout=6000, props=['C05']),
         ],
     },
 )
@@ -59,7 +58,7 @@ H['parsesize'] = dict(
         'quick': [dict(name='size_l%d' % l, defs={'H_LEN': l, 'H_MODE': 0}) for l in (1, 2, 3)] + [dict(name='pct_l%d' % l, defs={'H_LEN': l, 'H_MODE': 1}) for l in (2, 3)]
                  + [_tpl('DDDDDDDU', 0)],
         'thorough': [dict(name='size_l%d' % l, defs={'H_LEN': l, 'H_MODE': 0}, timeout=2400) for l in (1, 2, 3, 4, 5)] + [dict(name='pct_l%d' % l, defs={'H_LEN': l, 'H_MODE': 1}, timeout=2400) for l in (2, 3, 4)]
-                    + [_tpl(t, 0, 2400) for t in ('DDDDDDDU', 'DDDDDDDDDDU', 'DDDDDDDDDDDDDU', 'DDDDDDDDDDDDDDD', 'DDDDDDDUDDDDDDDU', 'DDDD.DDDU', '-DDDDDDDU')] + [_tpl('DDDDDDDU', 1, 2400), _tpl('DDDDDDDDDDDDD', 1, 2400)],
+                    + [_tpl('DDDDDDDU', 0, 3600), _tpl('DDDDDDDU', 1, 3600)],   # (10 digits and more, and the fraction / sign templates: no verdict within 40 min)
     },
 )
 
@@ -176,8 +175,8 @@ H['fsleaf'] = dict(
     functions=['Oomd::Fs::read', 'Oomd::Fs::hasxattrAt', 'Oomd::Fs::Fd::'],
     variants={
         'quick': [_fs_variant(1, '')] + [_fs_variant(fn, t) for fn in (2, 3, 4, 5, 10) for t in ('', 'AAA')] + [_fs_variant(fn, 'AAAA') for fn in (6, 7, 8, 9)]
-                 + [_fs_variant(12, 'AA'), _fs_variant(2, 'DDDDDDn')],   # (cgroup.events reader, H_FN 11: no verdict within the budget, not part of the claim)
-        'thorough': [_fs_variant(1, '')] + [_fs_variant(fn, t, 3000) for fn in range(2, 11) for t in ('', 'A', 'AA', 'AAA', 'AAAA', 'AAAAA', 'DDDDDDDDDn')]
+                 + [_fs_variant(12, 'AA'), _fs_variant(12, ''), _fs_variant(2, 'DDDDDDn'), _fs_variant(6, '115292150460DDDDDDDn'), _fs_variant(2, '115292150460DDDDDDDn'), _fs_variant(9, '9DDn')],   # (cgroup.events reader, H_FN 11: no verdict within the budget, not part of the claim)
+        'thorough': [_fs_variant(1, '')] + [_fs_variant(fn, t, 3000) for fn in range(2, 11) for t in ('', 'A', 'AA', 'AAA', 'AAAA', 'AAAAA', 'DDDDDDDDDn', '115292150460DDDDDDDn', '92233720368547DDDDDn')]
                     + [_fs_variant(12, t, 3000) for t in ('', 'A', 'AA', 'AAA')],
     },
 )
@@ -242,7 +241,7 @@ H['rank'] = dict(
 
 H['stats'] = dict(
     props=['C19'], dir='harness/stats',
-    oomd=['Stats.cpp', 'util/Util.cpp'], cxx=['h_stats.cpp'], c=['main_stats.c', 'env/stats_libc.c'],
+    oomd=['Stats.cpp', ('util/Util.cpp', ['-Dwrite=vfx_st_write'])], cxx=['h_stats.cpp'], c=['main_stats.c', 'env/stats_libc.c'],   # (Util::writeFull's write(2) is counted in both builds)
     override_cxx=['env/stats_overrides.cpp'], override_symbols=['_ZN4Oomd5Stats11startSocketEv'],
     real_inc=['-I/usr/include/jsoncpp'], real_libs=['-ljsoncpp'],
     defs={'VSTL_STR_CAP': 8, 'VSTL_VEC_MAX': 4, 'VSTL_MAP_MAX': 4},
